@@ -1,23 +1,28 @@
-import Pcore.Proofs.LatInfer
+import Pcore.Proofs.LatFam
+import Pcore.Proofs.LatCommonAll
 set_option linter.unusedSimpArgs false
 set_option linter.unusedVariables false
 set_option maxHeartbeats 1000000
-/-! C04: the family of types inferred for values that hold no type values, and `commonType` on it. -/
+/-! C04, first law for values that HOLD TYPE VALUES: the family of inferred types with `Type[T]` for every well-formed `T` of the stage-4
+    fragment of transitivity (`Ty.TA sfh`: every type of the model but Unit; Struct only with the rule off), and `commonType` on it.
+    `PType()` of a type value `T` is `Type[T]`; `commonType(Type[x], Type[y]) = Type[commonType(x, y)]` recurses into ARBITRARY types, where
+    it is an upper bound by `common_all` (LatCommonAll: the Tuple / Variant merges need transitivity, C03 stage 4); the fold invariant of
+    `privateReducedType` then needs C01 for `Type[..]` receivers with such contents — the lifted `Ty.Frag` (LatFrag). -/
 namespace Pcore.Lat
 variable (cfg : Cfg) (sfh : Bool)
 
-/-- The family of types that `PType()` produces for values without type values, closed under `commonType`: the singleton / range
-    types of scalars, case-sensitive Enums (merged string literals), the tail types Numeric … Any, and Arrays / Hashes / Sensitive
-    over them; Unit only as the element type of a collection whose maximal size is 0. -/
-def Ty.Fam (t : Ty) : Prop :=
+/-- `Ty.Fam` (the types `PType()` produces for values without type values, closed under `commonType`) plus `Type[T]` for every well-formed
+    `T` without Unit (`CG` = `Ty.WF ∧ Ty.TA sfh`) -/
+def Ty.FamT (t : Ty) : Prop :=
   match t with
   | .any | .undef | .dflt | .scalar | .scalarData | .numeric | .data | .richData | .bin | .str => True
   | .int _ | .float _ _ | .bool _ | .tspan _ | .strVal _ | .regexp _ | .object _ => True
   | .enum _ ci => ci = false
-  | .array e r => ((match e with | .unit => True | _ => False) ∧ r.hi ≤ 0) ∨ Ty.Fam e
+  | .array e r => ((match e with | .unit => True | _ => False) ∧ r.hi ≤ 0) ∨ Ty.FamT e
   | .hash k v r => ((match k with | .unit => True | _ => False) ∧ (match v with | .unit => True | _ => False) ∧ r.hi ≤ 0) ∨
-      (Ty.Fam k ∧ Ty.Fam v)
-  | .sensitive t' => Ty.Fam t'
+      (Ty.FamT k ∧ Ty.FamT v)
+  | .sensitive t' => Ty.FamT t'
+  | .typ t' => CG cfg sfh t'
   | _ => False
 termination_by t.w
 decreasing_by
@@ -25,13 +30,32 @@ decreasing_by
   all_goals (try simp only [Ty.w, Ty.wl, Ty.wm] at *)
   all_goals omega
 
-theorem fam_good : ∀ (n : Nat) (t : Ty), t.w ≤ n → t.Fam → Ty.Good cfg sfh t := by
+/-- no Unit anywhere, hence `UnitSafe` -/
+theorem Ty.TA.us : ∀ (n : Nat) (t : Ty), t.w ≤ n → t.TA sfh → t.US := by
   intro n
   induction n with
   | zero => intro t h; have := Ty.w_pos t; omega
   | succ n ih =>
     intro t hw h
-    cases t <;> unfold Ty.Fam at h <;> (try exact absurd h id)
+    cases t <;> unfold Ty.US <;> (try trivial) <;> unfold Ty.TA at h <;> (try exact absurd h id) <;> simp only [Ty.w] at hw
+    · right; exact ih _ (by omega) h
+    · right; exact ⟨ih _ (by omega) h.1, ih _ (by omega) h.2⟩
+    · rename_i ts g; right; exact fun t' hm => ih t' (by have := Ty.w_lt_wl hm; omega) (h.2 t' hm)
+    · rename_i ms; exact fun m hm => ih m.2.2 (by have := Ty.w_lt_wm hm; omega) (h.2 m hm)
+    · rename_i ts; exact fun t' hm => ih t' (by have := Ty.w_lt_wl hm; omega) (h t' hm)
+    · exact ih _ (by omega) h
+    · exact ih _ (by omega) h
+    · exact ih _ (by omega) h
+    · exact ih _ (by omega) h
+    · exact ih _ (by omega) h
+
+theorem famT_good : ∀ (n : Nat) (t : Ty), t.w ≤ n → t.FamT cfg sfh → Ty.Good cfg sfh t := by
+  intro n
+  induction n with
+  | zero => intro t h; have := Ty.w_pos t; omega
+  | succ n ih =>
+    intro t hw h
+    cases t <;> unfold Ty.FamT at h <;> (try exact absurd h id)
     all_goals (try (refine ⟨?_, ?_, ?_⟩ <;> simp [Ty.Frag, Ty.WF, Ty.US]; done))
     · -- enum
       subst h; refine ⟨?_, ?_, ?_⟩ <;> simp [Ty.Frag, Ty.WF, Ty.US]
@@ -53,118 +77,41 @@ theorem fam_good : ∀ (n : Nat) (t : Ty), t.w ≤ n → t.Fam → Ty.Good cfg s
       · obtain ⟨a1, a2, a3⟩ := ih k (by omega) h.1
         obtain ⟨b1, b2, b3⟩ := ih v (by omega) h.2
         refine ⟨by unfold Ty.Frag; exact ⟨a1, b1⟩, by unfold Ty.WF; exact ⟨a2, b2⟩, by unfold Ty.US; exact Or.inr ⟨a3, b3⟩⟩
+    · -- typ
+      rename_i x
+      exact ⟨by unfold Ty.Frag; exact h.2, by unfold Ty.WF; exact h.1, by unfold Ty.US; exact Ty.TA.us sfh x.w x (Nat.le_refl _) h.2⟩
     · -- sensitive
       simp only [Ty.w] at hw
       obtain ⟨g1, g2, g3⟩ := ih _ (by omega) h
       exact ⟨by unfold Ty.Frag; exact g1, by unfold Ty.WF; exact g2, by unfold Ty.US; exact g3⟩
 
-theorem fam_refl : ∀ (n : Nat) (t : Ty), t.w ≤ n → t.Fam → asg cfg sfh t t = true := by
-  intro n
-  induction n with
-  | zero => intro t h; have := Ty.w_pos t; omega
-  | succ n ih =>
-    intro t hw h
-    have viaRefl : Ty.WF cfg t → t.NoAlias → asg cfg sfh t t = true := fun w na => asg_refl cfg sfh t.w t (Nat.le_refl _) w na
-    cases t <;> unfold Ty.Fam at h <;> (try exact absurd h id)
-    all_goals (try (apply viaRefl <;> simp [Ty.WF, Ty.NoAlias]; done))
-    · unfold asg; simp [sameNullary]
-    · unfold asg; simp [sameNullary]
-    · subst h; apply viaRefl <;> simp [Ty.WF, Ty.NoAlias]
-    · -- array
-      rename_i e r
-      simp only [Ty.w] at hw
-      rw [asg_plain_r cfg sfh _ _ rfl]; simp only [Bool.or_eq_true]; right
-      unfold asgRecv
-      rcases h with ⟨_, hr⟩ | h
-      · simp [Rng.sub_refl, hr]
-      · simp [Rng.sub_refl, ih e (by omega) h]
-    · -- hash
-      rename_i k v r
-      simp only [Ty.w] at hw
-      rw [asg_plain_r cfg sfh _ _ rfl]; simp only [Bool.or_eq_true]; right
-      unfold asgRecv
-      rcases h with ⟨_, _, hr⟩ | h
-      · simp [Rng.sub_refl, hr]
-      · simp [Rng.sub_refl, ih k (by omega) h.1, ih v (by omega) h.2]
-    · -- sensitive
-      simp only [Ty.w] at hw
-      rw [asg_plain_r cfg sfh _ _ rfl]; simp only [Bool.or_eq_true]; right
-      unfold asgRecv; simp [ih _ (by omega) h]
+theorem famT_refl (n : Nat) (t : Ty) (hw : t.w ≤ n) (h : t.FamT cfg sfh) : asg cfg sfh t t = true :=
+  asg_refl_all cfg sfh t.w t (Nat.le_refl _) (famT_good cfg sfh t.w t (Nat.le_refl _) h).2.1
 
-theorem hull_sub_l (r r' : Rng) : (r.hull r').sub r = true := by
-  simp only [Rng.hull, Rng.sub, Bool.and_eq_true]
-  exact ⟨decide_eq_true (Int.min_le_left _ _), decide_eq_true (Int.le_max_left _ _)⟩
-theorem hull_sub_r (r r' : Rng) : (r.hull r').sub r' = true := by
-  simp only [Rng.hull, Rng.sub, Bool.and_eq_true]
-  exact ⟨decide_eq_true (Int.min_le_right _ _), decide_eq_true (Int.le_max_right _ _)⟩
-theorem hull_hi (r r' : Rng) (h : r.hi ≤ 0) (h' : r'.hi ≤ 0) : (r.hull r').hi ≤ 0 := by
-  simp only [Rng.hull]; omega
-
-theorem tail_ub (a b : Ty) :
-    asg cfg sfh (commonTail cfg sfh a b) a = true ∧ asg cfg sfh (commonTail cfg sfh a b) b = true := by
+theorem tail_famT (a b : Ty) : (commonTail cfg sfh a b).FamT cfg sfh := by
   unfold commonTail
-  split
-  · rename_i h; simpa using h
-  · split
-    · rename_i h; simpa using h
-    · split
-      · rename_i h; simpa using h
-      · split
-        · rename_i h; simpa using h
-        · split
-          · rename_i h; simpa using h
-          · exact ⟨asg_any_l cfg sfh a, asg_any_l cfg sfh b⟩
+  split <;> (try (unfold Ty.FamT; trivial))
+  split <;> (try (unfold Ty.FamT; trivial))
+  split <;> (try (unfold Ty.FamT; trivial))
+  split <;> (try (unfold Ty.FamT; trivial))
+  split <;> (unfold Ty.FamT; trivial)
 
-theorem tail_fam (a b : Ty) : (commonTail cfg sfh a b).Fam := by
-  unfold commonTail
-  split <;> (try (unfold Ty.Fam; trivial))
-  split <;> (try (unfold Ty.Fam; trivial))
-  split <;> (try (unfold Ty.Fam; trivial))
-  split <;> (try (unfold Ty.Fam; trivial))
-  split <;> (unfold Ty.Fam; trivial)
+theorem tail_allT (a b : Ty) :
+    (commonTail cfg sfh a b).FamT cfg sfh ∧ asg cfg sfh (commonTail cfg sfh a b) a = true ∧ asg cfg sfh (commonTail cfg sfh a b) b = true :=
+  ⟨tail_famT cfg sfh a b, (tail_ub cfg sfh a b).1, (tail_ub cfg sfh a b).2⟩
 
-theorem tail_all (a b : Ty) :
-    (commonTail cfg sfh a b).Fam ∧ asg cfg sfh (commonTail cfg sfh a b) a = true ∧ asg cfg sfh (commonTail cfg sfh a b) b = true :=
-  ⟨tail_fam cfg sfh a b, (tail_ub cfg sfh a b).1, (tail_ub cfg sfh a b).2⟩
-
-theorem viaRecv' {a b : Ty} (hb : b.plainR = true) (h : asgRecv cfg sfh a b = true) : asg cfg sfh a b = true := by
-  rw [asg_plain_r cfg sfh a b hb, h]; simp
-
-/-- a case-sensitive Enum accepts a case-sensitive Enum whose values it lists -/
-theorem enum_sub (vs ws : List String) (hw : ws ≠ []) (h : ∀ x ∈ ws, x ∈ vs) :
-    asg cfg sfh (.enum vs false) (.enum ws false) = true := by
-  apply viaRecv' cfg sfh rfl
-  unfold asgRecv
-  have hvs : vs.isEmpty = false := by
-    cases ws with
-    | nil => exact absurd rfl hw
-    | cons w _ => cases vs with
-      | nil => have := h w (by simp); simp at this
-      | cons _ _ => rfl
-  have hws : ws.isEmpty = false := by cases ws <;> simp_all
-  simp only [hvs, Bool.false_eq_true, if_false, hws, Bool.not_false, Bool.true_and, Bool.or_eq_true, Bool.and_eq_true,
-    List.all_eq_true]
-  refine ⟨by simp, fun s hs => ?_⟩
-  simp [enumInst, hvs, h s hs]
-
-theorem enum_has (vs : List String) (s : String) (h : s ∈ vs) : asg cfg sfh (.enum vs false) (.strVal s) = true := by
-  apply viaRecv' cfg sfh rfl
-  unfold asgRecv
-  have hvs : vs.isEmpty = false := by cases vs <;> simp_all
-  simp [hvs, enumInst, h]
-
-theorem fam_not_unit {t : Ty} (h : t.Fam) : t.isUnit = false := by
-  cases t <;> simp [Ty.isUnit]; unfold Ty.Fam at h; exact h
+theorem famT_not_unit {t : Ty} (h : t.FamT cfg sfh) : t.isUnit = false := by
+  cases t <;> simp [Ty.isUnit]; unfold Ty.FamT at h; exact h
 
 
 /-- element types of inferred Arrays: Unit (when the maximal size is 0) or a member of the family -/
-def ExtFam (x : Ty) (r : Rng) : Prop := ((match x with | .unit => True | _ => False) ∧ r.hi ≤ 0) ∨ x.Fam
+def ExtFamT (x : Ty) (r : Rng) : Prop := ((match x with | .unit => True | _ => False) ∧ r.hi ≤ 0) ∨ x.FamT cfg sfh
 
-theorem ext_common (n : Nat)
-    (ih : ∀ (a b : Ty), a.Fam → b.Fam → (commonF cfg sfh n a b).Fam ∧ asg cfg sfh (commonF cfg sfh n a b) a = true ∧
+theorem ext_commonT (n : Nat)
+    (ih : ∀ (a b : Ty), a.FamT cfg sfh → b.FamT cfg sfh → (commonF cfg sfh n a b).FamT cfg sfh ∧ asg cfg sfh (commonF cfg sfh n a b) a = true ∧
       asg cfg sfh (commonF cfg sfh n a b) b = true)
-    (x y : Ty) (rx ry : Rng) (hx : ExtFam x rx) (hy : ExtFam y ry) :
-    ExtFam (commonF cfg sfh n x y) (rx.hull ry) ∧
+    (x y : Ty) (rx ry : Rng) (hx : ExtFamT cfg sfh x rx) (hy : ExtFamT cfg sfh y ry) :
+    ExtFamT cfg sfh (commonF cfg sfh n x y) (rx.hull ry) ∧
     (rx.hi ≤ 0 ∨ asg cfg sfh (commonF cfg sfh n x y) x = true) ∧ (ry.hi ≤ 0 ∨ asg cfg sfh (commonF cfg sfh n x y) y = true) := by
   rcases hx with ⟨hxu, hxr⟩ | hx
   · cases x <;> simp only [] at hxu
@@ -172,59 +119,60 @@ theorem ext_common (n : Nat)
     · cases y <;> simp only [] at hyu
       refine ⟨?_, Or.inl hxr, Or.inl hyr⟩
       cases n with
-      | zero => right; unfold commonF; unfold Ty.Fam; trivial
+      | zero => right; unfold commonF; unfold Ty.FamT; trivial
       | succ k => left; unfold commonF; simp [Ty.isUnit]; exact hull_hi rx ry hxr hyr
     · cases n with
-      | zero => unfold commonF; exact ⟨Or.inr (by unfold Ty.Fam; trivial), Or.inl hxr, Or.inr (asg_any_l cfg sfh y)⟩
+      | zero => unfold commonF; exact ⟨Or.inr (by unfold Ty.FamT; trivial), Or.inl hxr, Or.inr (asg_any_l cfg sfh y)⟩
       | succ k =>
         unfold commonF; simp only [Ty.isUnit, if_true]
-        exact ⟨Or.inr hy, Or.inl hxr, Or.inr (fam_refl cfg sfh y.w y (Nat.le_refl _) hy)⟩
+        exact ⟨Or.inr hy, Or.inl hxr, Or.inr (famT_refl cfg sfh y.w y (Nat.le_refl _) hy)⟩
   · rcases hy with ⟨hyu, hyr⟩ | hy
     · cases y <;> simp only [] at hyu
       cases n with
-      | zero => unfold commonF; exact ⟨Or.inr (by unfold Ty.Fam; trivial), Or.inr (asg_any_l cfg sfh x), Or.inl hyr⟩
+      | zero => unfold commonF; exact ⟨Or.inr (by unfold Ty.FamT; trivial), Or.inr (asg_any_l cfg sfh x), Or.inl hyr⟩
       | succ k =>
-        have ux : x.isUnit = false := by cases x <;> simp [Ty.isUnit]; unfold Ty.Fam at hx; exact hx
+        have ux : x.isUnit = false := by cases x <;> simp [Ty.isUnit]; unfold Ty.FamT at hx; exact hx
         unfold commonF; rw [ux]; simp only [Ty.isUnit, Bool.false_eq_true, if_false, if_true]
-        exact ⟨Or.inr hx, Or.inr (fam_refl cfg sfh x.w x (Nat.le_refl _) hx), Or.inl hyr⟩
+        exact ⟨Or.inr hx, Or.inr (famT_refl cfg sfh x.w x (Nat.le_refl _) hx), Or.inl hyr⟩
     · obtain ⟨h1, h2, h3⟩ := ih x y hx hy
       exact ⟨Or.inr h1, Or.inr h2, Or.inr h3⟩
 
 /-- the statement about one `commonF` result -/
-def CF (a b c : Ty) : Prop := c.Fam ∧ asg cfg sfh c a = true ∧ asg cfg sfh c b = true
+def CFT (a b c : Ty) : Prop := c.FamT cfg sfh ∧ asg cfg sfh c a = true ∧ asg cfg sfh c b = true
 
-theorem common_fam : ∀ (n : Nat) (a b : Ty), a.Fam → b.Fam → CF cfg sfh a b (commonF cfg sfh n a b) := by
+theorem common_famT (hl : ∀ s, (cfg.lower s).length = s.length) (hidem : ∀ s, cfg.lower (cfg.lower s) = cfg.lower s) :
+    ∀ (n : Nat) (a b : Ty), a.FamT cfg sfh → b.FamT cfg sfh → CFT cfg sfh a b (commonF cfg sfh n a b) := by
   intro n
   induction n with
-  | zero => intro a b _ _; unfold commonF; exact ⟨by unfold Ty.Fam; trivial, asg_any_l cfg sfh a, asg_any_l cfg sfh b⟩
+  | zero => intro a b _ _; unfold commonF; exact ⟨by unfold Ty.FamT; trivial, asg_any_l cfg sfh a, asg_any_l cfg sfh b⟩
   | succ n ih =>
     intro a b ha hb
-    have ua := fam_not_unit ha
-    have ub := fam_not_unit hb
-    have ra := fam_refl cfg sfh a.w a (Nat.le_refl _) ha
-    have rb := fam_refl cfg sfh b.w b (Nat.le_refl _) hb
+    have ua := famT_not_unit cfg sfh ha
+    have ub := famT_not_unit cfg sfh hb
+    have ra := famT_refl cfg sfh a.w a (Nat.le_refl _) ha
+    have rb := famT_refl cfg sfh b.w b (Nat.le_refl _) hb
     by_cases h1 : asg cfg sfh a b = true
     · unfold commonF; simp only [ua, ub, h1, Bool.false_eq_true, if_false, if_true]; exact ⟨ha, ra, h1⟩
     have h1' : asg cfg sfh a b = false := by cases h : asg cfg sfh a b <;> simp_all
     by_cases h2 : asg cfg sfh b a = true
     · unfold commonF; simp only [ua, ub, h1', h2, Bool.false_eq_true, if_false, if_true]; exact ⟨hb, h2, rb⟩
     have h2' : asg cfg sfh b a = false := by cases h : asg cfg sfh b a <;> simp_all
-    have tl : CF cfg sfh a b (commonTail cfg sfh a b) := tail_all cfg sfh a b
+    have tl : CFT cfg sfh a b (commonTail cfg sfh a b) := tail_allT cfg sfh a b
     unfold commonF
     simp only [ua, ub, h1', h2', Bool.false_eq_true, if_false]
-    cases a <;> (unfold Ty.Fam at ha) <;> (try exact absurd ha id) <;> simp only [] <;> (try exact tl)
+    cases a <;> (unfold Ty.FamT at ha) <;> (try exact absurd ha id) <;> simp only [] <;> (try exact tl)
     · -- int
       rename_i r
-      cases b <;> (unfold Ty.Fam at hb) <;> (try exact absurd hb id) <;> simp only [] <;> (try exact tl)
+      cases b <;> (unfold Ty.FamT at hb) <;> (try exact absurd hb id) <;> simp only [] <;> (try exact tl)
       rename_i r'
-      refine ⟨by unfold Ty.Fam; trivial, ?_, ?_⟩
+      refine ⟨by unfold Ty.FamT; trivial, ?_, ?_⟩
       · exact viaRecv' cfg sfh rfl (by unfold asgRecv; exact hull_sub_l r r')
       · exact viaRecv' cfg sfh rfl (by unfold asgRecv; exact hull_sub_r r r')
     · -- float
       rename_i l h
-      cases b <;> (unfold Ty.Fam at hb) <;> (try exact absurd hb id) <;> simp only [] <;> (try exact tl)
+      cases b <;> (unfold Ty.FamT at hb) <;> (try exact absurd hb id) <;> simp only [] <;> (try exact tl)
       rename_i l' h'
-      refine ⟨by unfold Ty.Fam; trivial, ?_, ?_⟩
+      refine ⟨by unfold Ty.FamT; trivial, ?_, ?_⟩
       · exact viaRecv' cfg sfh rfl (by
           unfold asgRecv; simp only [Bool.and_eq_true, decide_eq_true_eq]
           exact ⟨Fl.effLo_mono (Int.min_le_left _ _), Fl.effHi_mono (Int.le_max_left _ _)⟩)
@@ -233,16 +181,16 @@ theorem common_fam : ∀ (n : Nat) (a b : Ty), a.Fam → b.Fam → CF cfg sfh a 
           exact ⟨Fl.effLo_mono (Int.min_le_right _ _), Fl.effHi_mono (Int.le_max_right _ _)⟩)
     · -- strVal
       rename_i s
-      cases b <;> (unfold Ty.Fam at hb) <;> (try exact absurd hb id) <;> simp only [] <;> (try exact tl)
+      cases b <;> (unfold Ty.FamT at hb) <;> (try exact absurd hb id) <;> simp only [] <;> (try exact tl)
       · -- str: String accepts a, so this branch is not reached
         exfalso; rw [viaRecv' cfg sfh rfl (by unfold asgRecv; rfl)] at h2'; cases h2'
       · -- strVal
         rename_i s'
-        refine ⟨by unfold Ty.Fam; rfl, enum_has cfg sfh _ s (by simp), enum_has cfg sfh _ s' (by simp)⟩
+        refine ⟨by unfold Ty.FamT; rfl, enum_has cfg sfh _ s (by simp), enum_has cfg sfh _ s' (by simp)⟩
       · -- enum
         rename_i vs' ci'
         subst hb
-        obtain ⟨f, l, r⟩ := ih (.enum vs' false) (.strVal s) (by unfold Ty.Fam; rfl) (by unfold Ty.Fam; trivial)
+        obtain ⟨f, l, r⟩ := ih (.enum vs' false) (.strVal s) (by unfold Ty.FamT; rfl) (by unfold Ty.FamT; trivial)
         exact ⟨f, r, l⟩
     · -- enum
       rename_i vs ci
@@ -251,7 +199,7 @@ theorem common_fam : ∀ (n : Nat) (a b : Ty), a.Fam → b.Fam → CF cfg sfh a 
       have hvs : ∀ b', isStringFamily b' = true → b'.plainR = true → asg cfg sfh (.enum vs false) b' = false → vs ≠ [] := by
         intro b' hf hp hn hv; subst hv
         rw [viaRecv' cfg sfh hp (by unfold asgRecv; simp [hf])] at hn; cases hn
-      cases b <;> (unfold Ty.Fam at hb) <;> (try exact absurd hb id) <;> simp only [] <;> (try exact tl)
+      cases b <;> (unfold Ty.FamT at hb) <;> (try exact absurd hb id) <;> simp only [] <;> (try exact tl)
       · -- str
         exfalso; rw [viaRecv' cfg sfh rfl (by unfold asgRecv; rfl)] at h2'; cases h2'
       · -- strVal
@@ -264,7 +212,7 @@ theorem common_fam : ∀ (n : Nat) (a b : Ty), a.Fam → b.Fam → CF cfg sfh a 
             | cons _ _ => rfl
           simp [this]
         rw [hm]
-        refine ⟨by unfold Ty.Fam; rfl, ?_, ?_⟩
+        refine ⟨by unfold Ty.FamT; rfl, ?_, ?_⟩
         · exact enum_sub cfg sfh _ vs (hvs _ rfl rfl h1') (fun x hx => List.mem_eraseDups.2 (by simp [hx]))
         · exact enum_has cfg sfh _ s (List.mem_eraseDups.2 (by simp))
       · -- enum
@@ -285,15 +233,15 @@ theorem common_fam : ∀ (n : Nat) (a b : Ty), a.Fam → b.Fam → CF cfg sfh a 
             | cons _ _ => rfl
           simp [this]
         rw [hm]
-        refine ⟨by unfold Ty.Fam; rfl, ?_, ?_⟩
+        refine ⟨by unfold Ty.FamT; rfl, ?_, ?_⟩
         · exact enum_sub cfg sfh _ vs hv (fun x hx => List.mem_eraseDups.2 (by simp [hx]))
         · exact enum_sub cfg sfh _ vs' hv' (fun x hx => List.mem_eraseDups.2 (by simp [hx]))
     · -- array
       rename_i e r
-      cases b <;> (unfold Ty.Fam at hb) <;> (try exact absurd hb id) <;> simp only [] <;> (try exact tl)
+      cases b <;> (unfold Ty.FamT at hb) <;> (try exact absurd hb id) <;> simp only [] <;> (try exact tl)
       rename_i e' r'
-      obtain ⟨hc1, hc2, hc3⟩ := ext_common cfg sfh n ih e e' r r' ha hb
-      refine ⟨by unfold Ty.Fam; exact hc1, ?_, ?_⟩
+      obtain ⟨hc1, hc2, hc3⟩ := ext_commonT cfg sfh n ih e e' r r' ha hb
+      refine ⟨by unfold Ty.FamT; exact hc1, ?_, ?_⟩
       · apply viaRecv' cfg sfh rfl
         unfold asgRecv
         simp only [hull_sub_l, Bool.true_and, Bool.or_eq_true, decide_eq_true_eq]
@@ -302,61 +250,68 @@ theorem common_fam : ∀ (n : Nat) (a b : Ty), a.Fam → b.Fam → CF cfg sfh a 
         unfold asgRecv
         simp only [hull_sub_r, Bool.true_and, Bool.or_eq_true, decide_eq_true_eq]
         exact hc3
+    · -- typ: `commonType(Type[x], Type[y]) = Type[commonType(x, y)]`, an upper bound on all of `Ty.TA` (`common_all`, C03 stage 4)
+      rename_i x
+      cases b <;> (unfold Ty.FamT at hb) <;> (try exact absurd hb id) <;> simp only [] <;> (try exact tl)
+      rename_i y
+      obtain ⟨g, u1, u2⟩ := common_all cfg sfh hl hidem n x y ha hb
+      exact ⟨by unfold Ty.FamT; exact g, mono_typ cfg sfh _ _ u1, mono_typ cfg sfh _ _ u2⟩
 
-end Pcore.Lat
 
-namespace Pcore.Lat
-variable (cfg : Cfg) (sfh : Bool)
-
-/-- the inferred-type family satisfies the obligations of the fold invariant; no type values (`TV` is empty) -/
-theorem fam_inferFam : InferFam cfg sfh Ty.Fam (fun _ => False) where
-  good := fun t h => fam_good cfg sfh t.w t (Nat.le_refl _) h
-  closed := fun a b ha hb => (common_fam cfg sfh _ a b ha hb).1
-  left := fun a b ha hb => (common_fam cfg sfh _ a b ha hb).2.1
-  right := fun a b ha hb => (common_fam cfg sfh _ a b ha hb).2.2
+/-- the family with type values satisfies the obligations of the fold invariant; `TV` = the well-formed types without Unit -/
+theorem famT_inferFam (hl : ∀ s, (cfg.lower s).length = s.length) (hidem : ∀ s, cfg.lower (cfg.lower s) = cfg.lower s) :
+    InferFam cfg sfh (Ty.FamT cfg sfh) (CG cfg sfh) where
+  good := fun t h => famT_good cfg sfh t.w t (Nat.le_refl _) h
+  closed := fun a b ha hb => (common_famT cfg sfh hl hidem _ a b ha hb).1
+  left := fun a b ha hb => (common_famT cfg sfh hl hidem _ a b ha hb).2.1
+  right := fun a b ha hb => (common_famT cfg sfh hl hidem _ a b ha hb).2.2
   leaf := by
-    refine ⟨?_, ?_, ?_, ?_, ?_, ?_, ?_, ?_, ?_, ?_⟩ <;> (try intro _) <;> (unfold Ty.Fam; trivial)
-  typv := fun _ h => absurd h id
-  sens := fun t h => by unfold Ty.Fam; exact h
-  arr0 := by unfold Ty.Fam; left; exact ⟨trivial, by simp⟩
-  arr := fun e r h => by unfold Ty.Fam; right; exact h
-  hash0 := by unfold Ty.Fam; left; exact ⟨trivial, trivial, by simp⟩
-  hash := fun k v r hk hv => by unfold Ty.Fam; right; exact ⟨hk, hv⟩
+    refine ⟨?_, ?_, ?_, ?_, ?_, ?_, ?_, ?_, ?_, ?_⟩ <;> (try intro _) <;> (unfold Ty.FamT; trivial)
+  typv := fun t h => ⟨by unfold Ty.FamT; exact h, cg_refl cfg sfh h⟩
+  sens := fun t h => by unfold Ty.FamT; exact h
+  arr0 := by unfold Ty.FamT; left; exact ⟨trivial, by simp⟩
+  arr := fun e r h => by unfold Ty.FamT; right; exact h
+  hash0 := by unfold Ty.FamT; left; exact ⟨trivial, trivial, by simp⟩
+  hash := fun k v r hk hv => by unfold Ty.FamT; right; exact ⟨hk, hv⟩
 
-/-- FIRST LAW of C04 for every value that holds no type value: the value is an instance of its inferred type -/
-theorem ptype_fam (hl : ∀ s, (cfg.lower s).length = s.length) (v : Val) (ok : v.OK) (tv : Val.TyOKS cfg sfh v)
-    (nt : Val.AllTyp (fun _ => False) v) : inst cfg sfh (ptype cfg sfh v) v = true :=
-  (ptype_inst cfg sfh hl Ty.Fam (fun _ => False) (fam_inferFam cfg sfh) v.w v (Nat.le_refl _) ok tv nt).1
-
-end Pcore.Lat
-
-namespace Pcore.Lat
-variable (cfg : Cfg) (sfh : Bool)
-
-/-- no hash inside the value is keyed by strings only with the empty string among them (the one shape whose detailed type is a
-    `commonType` fold over DETAILED types) -/
-inductive Val.NoEmptyKey : Val → Prop
-  | leaf (v) : (match v with | .array _ | .hash _ | .sensitive _ => False | _ => True) → Val.NoEmptyKey v
-  | sensitive (v) : Val.NoEmptyKey (.sensitive v)
-  | array (vs) : (∀ x ∈ vs, Val.NoEmptyKey x) → Val.NoEmptyKey (.array vs)
-  | hashAny (es : List (Val × Val)) : (es.all (fun e => isStrKey e.1) = false) → Val.NoEmptyKey (.hash es)
-  | hashStr (es : List (Val × Val)) : (∀ e ∈ es, ∃ s, e.1 = .str s ∧ s ≠ "") → (∀ e ∈ es, Val.NoEmptyKey e.2) → Val.NoEmptyKey (.hash es)
-
-theorem dtype_eq_ptype_leaf (v : Val) (h : match v with | .array _ | .hash _ => False | _ => True) :
-    dtype cfg sfh v = ptype cfg sfh v := by
-  cases v <;> first | (exact absurd h id) | (unfold dtype; rfl)
-
-/-- SECOND LAW of C04 for every value that holds no type value and no hash of the empty-string-key shape -/
-theorem dtype_fam (hl : ∀ s, (cfg.lower s).length = s.length) : ∀ (n : Nat) (v : Val), v.w ≤ n → v.OK → Val.TyOKS cfg sfh v →
-    Val.AllTyp (fun _ => False) v → Val.NoEmptyKey v → Val.Structy cfg sfh v := by
+/-- the side condition of C01 on values already says that every type value is a well-formed type without Unit -/
+theorem Val.TyOKS.allTyp : ∀ (n : Nat) (v : Val), v.w ≤ n → Val.TyOKS cfg sfh v → Val.AllTyp (CG cfg sfh) v := by
   intro n
   induction n with
   | zero => intro v h; have : 0 < v.w := by cases v <;> simp [Val.w] <;> omega
             omega
   | succ n ih =>
-    intro v hw ok tv nt ne
+    intro v hw tv
+    cases tv with
+    | typ t h1 h2 => exact Val.AllTyp.typ t ⟨h2, h1⟩
+    | sensitive x h => simp only [Val.w] at hw; exact Val.AllTyp.sensitive x (ih x (by omega) h)
+    | array vs _ h =>
+      simp only [Val.w] at hw
+      exact Val.AllTyp.array vs (fun x hx => ih x (by have := Val.w_lt_wl hx; omega) (h x hx))
+    | hash es _ h1 h2 =>
+      simp only [Val.w] at hw
+      exact Val.AllTyp.hash es (fun e he => ih e.1 (by have := Val.w_lt_we he; omega) (h1 e he))
+        (fun e he => ih e.2 (by have := Val.w_lt_we he; omega) (h2 e he))
+    | _ => constructor
+
+/-- FIRST LAW of C04 for every value, type values included (any well-formed type without Unit; Struct only with the rule off) -/
+theorem ptype_famT (hl : ∀ s, (cfg.lower s).length = s.length) (hidem : ∀ s, cfg.lower (cfg.lower s) = cfg.lower s)
+    (v : Val) (ok : v.OK) (tv : Val.TyOKS cfg sfh v) :
+    inst cfg sfh (ptype cfg sfh v) v = true ∧ (ptype cfg sfh v).FamT cfg sfh :=
+  ptype_inst cfg sfh hl (Ty.FamT cfg sfh) (CG cfg sfh) (famT_inferFam cfg sfh hl hidem) v.w v (Nat.le_refl _) ok tv
+    (Val.TyOKS.allTyp cfg sfh v.w v (Nat.le_refl _) tv)
+
+/-- SECOND LAW of C04 for every value (type values included) without a hash of the empty-string-key shape -/
+theorem dtype_famT (hl : ∀ s, (cfg.lower s).length = s.length) (hidem : ∀ s, cfg.lower (cfg.lower s) = cfg.lower s) : ∀ (n : Nat) (v : Val), v.w ≤ n → v.OK → Val.TyOKS cfg sfh v →
+    Val.NoEmptyKey v → Val.Structy cfg sfh v := by
+  intro n
+  induction n with
+  | zero => intro v h; have : 0 < v.w := by cases v <;> simp [Val.w] <;> omega
+            omega
+  | succ n ih =>
+    intro v hw ok tv ne
     have viaP : dtype cfg sfh v = ptype cfg sfh v → Val.Structy cfg sfh v := fun he =>
-      Val.Structy.known v (by rw [he]; exact ptype_fam cfg sfh hl v ok tv nt)
+      Val.Structy.known v (by rw [he]; exact (ptype_famT cfg sfh hl hidem v ok tv).1)
     cases ne with
     | leaf _ hlf =>
       apply viaP
@@ -366,7 +321,7 @@ theorem dtype_fam (hl : ∀ s, (cfg.lower s).length = s.length) : ∀ (n : Nat) 
     | array vs hall =>
       simp only [Val.w] at hw
       exact Val.Structy.array vs (fun x hx =>
-        ih x (by have := Val.w_lt_wl hx; omega) (ok.elems x hx) (tv.elems x hx) (nt.elems x hx) (hall x hx))
+        ih x (by have := Val.w_lt_wl hx; omega) (ok.elems x hx) (tv.elems x hx) (hall x hx))
     | hashAny es hany =>
       apply viaP
       cases es with
@@ -375,7 +330,7 @@ theorem dtype_fam (hl : ∀ s, (cfg.lower s).length = s.length) : ∀ (n : Nat) 
     | hashStr es hkeys hvals =>
       simp only [Val.w] at hw
       exact Val.Structy.hash es ok.nodup hkeys (fun e he =>
-        ih e.2 (by have := Val.w_lt_we he; omega) (ok.vals e he) (tv.vals e he) (nt.vals e he) (hvals e he))
+        ih e.2 (by have := Val.w_lt_we he; omega) (ok.vals e he) (tv.vals e he) (hvals e he))
 
 end Pcore.Lat
 
@@ -383,18 +338,17 @@ namespace Pcore.Lat
 variable (cfg : Cfg)
 
 /-- the detailed type of such a value meets the side conditions of C01 (rule off: it may hold Structs) -/
-theorem dtype_good (hl : ∀ s, (cfg.lower s).length = s.length) : ∀ (n : Nat) (v : Val), v.w ≤ n → v.OK → Val.TyOKS cfg false v →
-    Val.AllTyp (fun _ => False) v → Val.NoEmptyKey v → Ty.Good cfg false (dtype cfg false v) := by
+theorem dtype_goodT (hl : ∀ s, (cfg.lower s).length = s.length) (hidem : ∀ s, cfg.lower (cfg.lower s) = cfg.lower s) : ∀ (n : Nat) (v : Val), v.w ≤ n → v.OK → Val.TyOKS cfg false v →
+    Val.NoEmptyKey v → Ty.Good cfg false (dtype cfg false v) := by
   intro n
   induction n with
   | zero => intro v h; have : 0 < v.w := by cases v <;> simp [Val.w] <;> omega
             omega
   | succ n ih =>
-    intro v hw ok tv nt ne
+    intro v hw ok tv ne
     have viaP : dtype cfg false v = ptype cfg false v → Ty.Good cfg false (dtype cfg false v) := fun he => by
       rw [he]
-      exact fam_good cfg false _ _ (Nat.le_refl _)
-        (ptype_inst cfg false hl Ty.Fam (fun _ => False) (fam_inferFam cfg false) v.w v (Nat.le_refl _) ok tv nt).2
+      exact famT_good cfg false _ _ (Nat.le_refl _) (ptype_famT cfg false hl hidem v ok tv).2
     cases ne with
     | leaf _ hlf =>
       apply viaP
@@ -416,7 +370,7 @@ theorem dtype_good (hl : ∀ s, (cfg.lower s).length = s.length) : ∀ (n : Nat)
           obtain ⟨y, hy, hty⟩ := dtypeL_get cfg false (x :: xs) i t (by rw [List.getElem?_eq_getElem hi, hget])
           have hym := List.mem_of_getElem? hy
           rw [hty]
-          exact ih y (by have := Val.w_lt_wl hym; omega) (ok.elems y hym) (tv.elems y hym) (nt.elems y hym) (hall y hym)
+          exact ih y (by have := Val.w_lt_wl hym; omega) (ok.elems y hym) (tv.elems y hym) (hall y hym)
         refine ⟨?_, ?_, ?_⟩
         · unfold Ty.Frag; exact fun t ht => (hmem t ht).1
         · unfold Ty.WF; exact fun t ht => (hmem t ht).2.1
@@ -452,7 +406,7 @@ theorem dtype_good (hl : ∀ s, (cfg.lower s).length = s.length) : ∀ (n : Nat)
           intro m hm
           obtain ⟨e, he, _, h2⟩ := dtypeM_mem cfg false _ m hm
           rw [h2]
-          exact ih e.2 (by have := Val.w_lt_we he; omega) (ok.vals e he) (tv.vals e he) (nt.vals e he) (hvals e he)
+          exact ih e.2 (by have := Val.w_lt_we he; omega) (ok.vals e he) (tv.vals e he) (hvals e he)
         have hnames : ((dtypeM cfg false ((k0, v0) :: es0)).map (·.1)).Nodup := by
           rw [dtypeM_names]; exact names_nodup _ ok.nodup hkeys
         refine ⟨?_, ?_, ?_⟩
